@@ -1,6 +1,8 @@
 import SaphyrModel.Api
 import SaphyrModel.Proofs.Run
 import SaphyrModel.Proofs.History
+import SaphyrModel.Proofs.PushPull
+import SaphyrModel.Proofs.TermRun
 /-! # C17 — Pull, peek and push interfaces tell the same story (Api model)
 
 Laws of `peek` / `next_event` on the model of the parser's driver (`SaphyrModel/Api.lean`), for
@@ -102,6 +104,65 @@ theorem after_stream_end (a : Api) (v : Ev) (a' : Api) (h : a.next = (some (.ok 
     a'.next = (none, a') ∧ a'.peek = (none, a') := by
   obtain ⟨he, hc⟩ := next_sets_end_flag a v a' h
   exact fused a' hc (by rw [he, hv]; rfl)
+
+/-- **Push = pull.** For every token list, latched scanner error and `keep_tags` setting, `Parser::load`
+    with `multi = true` on a fresh parser, given `16·|tokens| + 2` loop iterations, never panics and
+    * when it returns `Ok`, the receiver got exactly the events of plain iteration, in order, ending with
+      StreamEnd (iteration then returns `None`);
+    * when it returns an error, plain iteration returns the same error after some prefix of events.
+    The anchor table that `load` clears before each document is already empty there, the
+    `unreachable!` arms and the `assert_eq!(DocumentEnd)` of the push loops cannot be reached, and the
+    loops terminate (each pull decreases the potential of `Proofs/Term.lean`). -/
+theorem push_eq_pull (toks : List Token) (scanErr : Option ScanError) (eof : Marker) (keep : Bool)
+    (n : Nat) (hn : 16 * toks.length + 2 ≤ n) :
+    let a0 := Api.init (PState.init toks scanErr eof keep)
+    match load true n ⟨a0, []⟩ with
+    | .ok s => ∀ m, iterate (s.out.length + 1 + m) a0 [] = (s.out.reverse, none)
+    | .err e => ∃ evs, ∀ m, iterate (evs.length + 1 + m) a0 [] = (evs, some (.err e))
+    | .panic _ => False := by
+  intro a0
+  have hspec := load_spec n (PState.init toks scanErr eof keep) rfl rfl rfl
+  have hphi : phi a0.p = 16 * toks.length + 1 := phi_init toks scanErr eof keep
+  cases hl : load true n ⟨a0, []⟩ with
+  | ok s =>
+    simp only [a0] at hl
+    simp only [hl, LoopSpec] at hspec ⊢
+    obtain ⟨evs, vEnd, a1, hst, hne, hn1, hvend, hout⟩ := hspec
+    intro m
+    rw [iterate_eq]
+    obtain ⟨h1, he1⟩ := iterSpec_of_steps hst hne rfl (1 + m)
+    have hlen : s.out.length + 1 + m = evs.length + (1 + m) + 1 := by simp [hout]; omega
+    have hnext : a1.next = (some (.ok vEnd), { s.api with endEmitted := true }) := by
+      simp [Api.next, he1, hn1, hvend]
+    have hlast : ∀ k, iterSpec (k + 1) ({ s.api with endEmitted := true } : Api) = ([], none) := by
+      intro k; simp [iterSpec, Api.next]
+    have h2 : iterSpec (1 + m + 1) a1 = ([vEnd], none) := by
+      rw [show 1 + m + 1 = (m + 1) + 1 by omega]
+      unfold iterSpec
+      simp only [hnext]
+      rw [hlast m]
+    have h3 := (iterSpec_of_steps hst hne rfl (1 + m + 1)).1
+    rw [h2] at h3
+    rw [hlen, show evs.length + (1 + m) + 1 = evs.length + (1 + m + 1) by omega, h3]
+    simp [hout]
+  | err e =>
+    simp only [a0] at hl
+    simp only [hl, LoopSpec] at hspec ⊢
+    obtain ⟨evs, a', hst, hne, herr⟩ := hspec
+    refine ⟨evs, fun m => ?_⟩
+    rw [iterate_eq]
+    obtain ⟨h1, he1⟩ := iterSpec_of_steps hst hne rfl (1 + m)
+    have hnext : a'.next = (some (.err e), a') := by simp [Api.next, he1, herr]
+    have h2 : iterSpec (1 + m) a' = ([], some (.err e)) := by
+      rw [show 1 + m = m + 1 by omega]; simp only [iterSpec, hnext]
+    rw [show evs.length + 1 + m = evs.length + (1 + m) by omega, h1, h2]
+    simp
+  | panic x =>
+    simp only [a0] at hl
+    simp only [hl, LoopSpec] at hspec ⊢
+    have h4 : phi (PState.init toks scanErr eof keep) = 16 * toks.length + 1 := phi_init toks scanErr eof keep
+    have h5 : n ≤ phi (PState.init toks scanErr eof keep) := hspec.2
+    omega
 
 /-- the history theorem is not vacuous: a history that interleaves both calls -/
 example : ([Call.peek, .next, .peek, .peek, .next] : List Call).length ≤ 5 := by decide
